@@ -92,7 +92,27 @@ def render_class(name, c, names):
     return "\n".join(pre + L)
 
 
+# ---- fixed probes: class shapes outside the Traits alphabet (reported by adversaries), each with its nearest
+# control.  Text with @ = the case prefix; classes are @_C1 .. @_Cn.  g++ gives the ground truth for these (there is
+# no spec verdict), the tool's judgement comes from parse_file -p.  (id, text, number of classes, finding class)
+PROBES = [
+    ("virtual-diamond-final-overrider",
+     "struct @_C1 { virtual void f() = 0; }; struct @_C2 : public virtual @_C1 { void f() override; }; "
+     "struct @_C3 : public virtual @_C1 { }; struct @_C4 : public @_C2, public @_C3 { };", 4, "C10-virtual-base-dominance"),
+    ("virtual-base-constructed-by-most-derived",
+     "struct @_C1 { @_C1(int); }; struct @_C2 : public virtual @_C1 { @_C2() : @_C1(1) { } }; struct @_C3 : public @_C2 { };",
+     3, "C10-virtual-base-dominance"),
+    ("const-array-member", "struct @_C1 { const int a[3]; }; struct @_C2 { const int a[3] = {1, 2, 3}; };", 2, "C10-const-member-shapes"),
+    ("const-member-of-typedefd-class", "struct @_C1 { @_C1(); }; typedef @_C1 @_t; struct @_C2 { const @_t m; };", 2, "C10-const-member-shapes"),
+    ("const-member-control", "struct @_C1 { @_C1(); }; struct @_C2 { const @_C1 m; }; struct @_C3 { const int x = 1; const int y{2}; };", 3, None),
+    ("defaulted-destructor", "struct @_C1 { ~@_C1() = delete; }; struct @_C2 { ~@_C2() = default; @_C1 m; }; struct @_C3 { ~@_C3() = default; };", 3, None),
+    ("virtual-base-spellings", "struct @_C1 { }; struct @_C2 : virtual @_C1 { }; class @_C3 : virtual public @_C1 { }; struct @_C4 : public virtual @_C1 { };", 4, None),
+]
+
+
 def render_case(i, rec):
+    if "raw" in rec:
+        return rec["raw"].replace("@", "K%d" % i)
     # global scope (members of namespaces are exported only on demand), unique names per case
     names = ["K%d_C%d" % (i, k + 1) for k in range(len(rec["c"]))]
     out = []
@@ -324,6 +344,35 @@ def run_check(ctx):
                             nm, {x: dv[x] for x in bad}, {x: sp[x] for x in bad}, render_case(i, rec).replace("\n", " ")),
                             dict(program=render_case(i, rec), cls=nm, spec=sp, database=dv, view="database",
                                  stat_key="db %s %s" % (["%s:%s->%s" % (x, sp[x], dv[x]) for x in bad], features(rec, k))), classes=cls)
+    # fixed probes (g++ is the ground truth)
+    pcases = [(900000 + j, dict(raw=text, c=[None] * n)) for j, (pid, text, n, cls) in enumerate(PROBES)]
+    pres = run_batch((ctx.tmp, 999999, pcases))
+    if "gxx_error" in pres:
+        raise MachineryError("g++ rejects a C10 probe: " + pres["gxx_error"][:1500])
+    exact = ctx.notes.setdefault("finding_class_failed_of_members", {})
+    for (i, rec), (pid, text, n, cls) in zip(pcases, PROBES):
+        bad_any = False
+        for k in range(n):
+            nm = "C%d" % (k + 1)
+            g = pres["gxx"].get((i, nm))
+            t = pres["ig"].get("K%d_%s" % (i, nm))
+            n_classes += 1
+            if g is None:
+                raise MachineryError("no g++ verdict for probe %s %s" % (pid, nm))
+            # (classes whose destructor is unusable are compared on abstract / polymorphic / destructible only,
+            # as in the generated part)
+            keys = ("abs", "poly", "d") if pid == "defaulted-destructor" else ("abs", "poly", "dc", "cc", "d")
+            bad = ["none"] if t is None else [x for x in keys if t.get(x) != g[x]]
+            if bad:
+                bad_any = True
+                ctx.violation("probe %s, class %s: interrogate judges %s, g++ says %s  [%s]" % (
+                    pid, nm, {x: (t or {}).get(x) for x in bad}, {x: g.get(x) for x in bad}, render_case(i, rec)),
+                    dict(probe=pid, program=render_case(i, rec), cls=nm, gxx=g, interrogate=t, view="parse_file -p",
+                         stat_key="probe " + pid), classes=[cls] if cls else [])
+        if cls:
+            m = exact.setdefault(cls, [0, 0])
+            m[1] += 1
+            m[0] += bad_any
     ctx.cov["evaluations"] = n_classes
     ctx.cov["traces_validated_against_impl"] = len(progs)
     ctx.cov["distinct_nontrivial"] = len(distinct)
